@@ -30,6 +30,11 @@ Inductive out :=
 Definition rt (r : res (tensor Z)) : out := match r with Ok t => OT t | Err => OErr end.
 Definition rsr (r : res (list nat * list nat)) : out := match r with Ok (s, k) => OSR s k | Err => OErr end.
 
+(* wrapper.norm() of the families without a factor-based norm = FactorizedTensor.norm = l2 norm of to_tensor(): the model value is
+   the exact sum of squares of the reconstruction, compared with the observed float like cp_norm *)
+Definition sumsq (t : tensor Z) : Z := fold_left (fun acc x => (acc + x * x)%Z) (data t) 0%Z.
+Definition rnorm (r : res (tensor Z)) : out := match r with Ok t => ONorm (inject_Z (sumsq t)) | Err => OErr end.
+
 Definition run (d : decomp) (v : view) : out :=
   match d, v with
   | DCp w fs _, VValidate => match validate_cp w fs with Ok (s, r) => OSR s [r] | Err => OErr end
@@ -41,6 +46,11 @@ Definition run (d : decomp) (v : view) : out :=
   | DTucker c fs skip tr, VTensor => rt (tucker_to_tensor Zops c fs skip tr)
   | DTucker c fs skip tr, VUnfolded m => rt (tucker_to_unfolded Zops c fs m skip tr)
   | DTucker c fs skip tr, VVec => rt (tucker_to_vec Zops c fs skip tr)
+  | DTucker c fs _ _, VNorm => rnorm (tucker_to_tensor Zops c fs None false)
+  | DTt cs, VNorm => rnorm (tt_to_tensor Zops cs)
+  | DTr cs, VNorm => rnorm (tr_to_tensor Zops cs)
+  | DTtm cs, VNorm => rnorm (ttm_to_tensor Zops cs)
+  | DP2 w fs ps, VNorm => rnorm (parafac2_to_tensor Zops w fs ps)
   | DTt cs, VValidate => rsr (validate_tt cs)
   | DTt cs, VTensor => rt (tt_to_tensor Zops cs)
   | DTt cs, VUnfolded m => rt (tt_to_unfolded Zops cs m)
